@@ -41,8 +41,10 @@ def run_impl(sc):
     rems = []
     marks = [len(s.log)]
     buffered = []
+    conn_before = []
     for op in sc["ops"]:
         parts = op.split(":")
+        conn_before.append(bool(ws.connected))
         try:
             buffered.append(sum(len(x) for x in ws.frame_buffer.recv_buffer))
         except Exception:
@@ -88,6 +90,7 @@ def run_impl(sc):
         marks.append(len(s.log))
     s.rems = rems
     s.buffered = buffered
+    s.conn_before = conn_before
     s.marks = marks
     s.ws = ws
     io = []
